@@ -15,7 +15,9 @@ const TARGET_KINDS: [&str; 9] = [
     // item-level decorators that send the definition through another writer of a backend
     "newtype-kotlin-jvminline", "alias-kotlin-jvminline-redacted", "struct-swift-decorated-redacted",
 ];
-const POSITIONS: [&str; 23] = [
+const POSITIONS: [&str; 27] = [
+    // one type expression that mentions a parameter of the (generic) referrer and the target
+    "param-and-target-in-pair-field", "param-and-target-in-map-payload", "param-and-target-in-variant-field", "param-and-target-in-alias",
     "array", "vec-of-array", "slice",
     "field", "vec", "option", "map-value", "generic-arg", "variant-payload", "variant-field", "alias-target", "self-box", "param-field", "param-payload", "param-variant-field", "param-alias",
     // two (or three) separately renamed types inside one type expression
@@ -168,6 +170,31 @@ pub fn program(c: &Case) -> File {
                 ],
             );
             i.generics = vec!["T".into(), "U".into()];
+            i
+        }
+        "param-and-target-in-pair-field" => {
+            items.push(pair(false));
+            let mut i = Item::strukt("Referrer", vec![Field::new("both", Ty::Vec(Box::new(pair_of(Ty::Param("T".into()), t.clone())))), Field::new("plain", t)]);
+            i.generics = vec!["T".into()];
+            i
+        }
+        "param-and-target-in-map-payload" => {
+            items.push(pair(false));
+            let mut i = Item::enumm("Referrer", vec![Variant::new("P", VKind::Newtype(Ty::Map(Box::new(Ty::Prim("String")), Box::new(pair_of(t, Ty::Param("T".into())))))), Variant::new("U", VKind::Unit)]);
+            i.generics = vec!["T".into()];
+            i
+        }
+        "param-and-target-in-variant-field" => {
+            items.push(g.clone());
+            items.push(pair(true));
+            let mut i = Item::enumm("Referrer", vec![Variant::new(c.variant_ident, VKind::Struct(vec![Field::new("m", Ty::Option(Box::new(pair_of(Ty::Generic("Holder".into(), vec![Ty::Param("T".into())]), Ty::Vec(Box::new(t))))))])), Variant::new("U", VKind::Unit)]);
+            i.generics = vec!["T".into()];
+            i
+        }
+        "param-and-target-in-alias" => {
+            items.push(pair(false));
+            let mut i = Item::new("Referrer", IKind::Alias(Ty::Vec(Box::new(pair_of(t, Ty::Param("T".into()))))));
+            i.generics = vec!["T".into()];
             i
         }
         "pair-both-renamed" => {
